@@ -321,6 +321,8 @@ where
     fn get<T: Object+DataSize>(&self, r: Ref<T>) -> Result<RcRef<T>> {
         let key = r.get_inner();
         self.storage.log.log_get(key);
+        #[cfg(pdf_rs_pdf_verif)]
+        crate::verif_hooks::yield_point("enter", key, std::any::type_name::<T>());
         
         {
             debug!("get {key:?} as {}", std::any::type_name::<T>());
@@ -331,9 +333,15 @@ where
             chain.push(key);
         }
         let _defer = Defer(|| {
+            #[cfg(pdf_rs_pdf_verif)]
+            if !std::thread::panicking() {
+                crate::verif_hooks::yield_point("leave", key, std::any::type_name::<T>());
+            }
             let mut chain = self.chain.lock().unwrap();
             assert_eq!(chain.pop(), Some(key));
         });
+        #[cfg(pdf_rs_pdf_verif)]
+        crate::verif_hooks::yield_point("pushed", key, std::any::type_name::<T>());
         
         let res = self.storage.cache.get_or_compute(key, || {
             match self.resolve(key).and_then(|p| T::from_primitive(p, self)) {
@@ -345,6 +353,8 @@ where
                 }
             }
         });
+        #[cfg(pdf_rs_pdf_verif)]
+        crate::verif_hooks::yield_point("cached", key, std::any::type_name::<T>());
         match res {
             Ok(any) => {
                 match any.downcast() {
